@@ -60,7 +60,7 @@ func c18Scenarios(tier string) []*core.Scenario {
 	ops := []string{"ADD", "OR", "AND", "SUB", "XOR", "CMP"}
 	var scs []*core.Scenario
 	scs = append(scs, &core.Scenario{Name: "alu_imm", Bound: -1,
-		Rule:   "six immediate-group operations x every 8/16/32-bit register and BYTE/WORD/DWORD memory destination (6 shapes) x signed immediates on both sides of -128/127 and +-32768 x BITS; non-trivial = decoded to the source instruction",
+		Rule:   "six immediate-group operations x every 8/16/32-bit register and BYTE/WORD/DWORD memory destination (6 shapes) x signed immediates on both sides of -128/127 and +-32768, each written as a literal, as a constant expression and as an EQU name x BITS; non-trivial = decoded to the source instruction",
 		Bounds: map[string]any{"ops": ops, "immediates": imms},
 		Build: func(c *core.Chooser) *core.Case {
 			mode := modes[c.Pick("mode", 2)]
@@ -71,14 +71,34 @@ func c18Scenarios(tier string) []*core.Scenario {
 			if w == 8 && (iv < -128 || iv > 255) {
 				return nil
 			}
+			// how the immediate is written: a literal, a constant expression with that value, or an EQU name defined by one
+			spell := c.Str("spelling", "literal", "expression", "equ_name")
+			expr := fmt.Sprintf("7-%d", 7-iv)
+			if iv >= 7 {
+				expr = fmt.Sprintf("7+%d", iv-7)
+			}
+			operand, prelude := fmt.Sprint(iv), ""
+			switch spell {
+			case "expression":
+				operand = expr
+			case "equ_name":
+				operand, prelude = "K8", "K8 EQU "+expr+"\n"
+			}
+			var cs *core.Case
 			if k < 8 {
 				a := regsOf(w)[k]
-				return c18Case(mode, fmt.Sprintf("%s %s,%d", mn, a, iv), x86ref.Want{Op: mn, OpSize: w, Ops: []x86ref.WantOp{wreg(a), wimm(iv, w)}},
-					feat("form", "r,imm", "mn", mn, "w", fmt.Sprint(w), "dst", a, "imm", fmt.Sprint(iv), "s8", fmt.Sprint(iv >= -128 && iv <= 127), "acc", fmt.Sprint(k == 0)))
+				cs = c18Case(mode, fmt.Sprintf("%s %s,%s", mn, a, operand), x86ref.Want{Op: mn, OpSize: w, Ops: []x86ref.WantOp{wreg(a), wimm(iv, w)}},
+					feat("form", "r,imm", "mn", mn, "w", fmt.Sprint(w), "dst", a, "imm", fmt.Sprint(iv), "s8", fmt.Sprint(iv >= -128 && iv <= 127), "acc", fmt.Sprint(k == 0), "spelling", spell))
+			} else {
+				m := c01MemShapes(mode)[k-8]
+				cs = c18Case(mode, fmt.Sprintf("%s %s %s,%s", mn, sizeKw(w), m.text, operand), x86ref.Want{Op: mn, OpSize: w, Ops: []x86ref.WantOp{wmem(m, w), wimm(iv, w)}},
+					feat("form", "m,imm", "mn", mn, "w", fmt.Sprint(w), "shape", m.text, "imm", fmt.Sprint(iv), "s8", fmt.Sprint(iv >= -128 && iv <= 127), "spelling", spell))
 			}
-			m := c01MemShapes(mode)[k-8]
-			return c18Case(mode, fmt.Sprintf("%s %s %s,%d", mn, sizeKw(w), m.text, iv), x86ref.Want{Op: mn, OpSize: w, Ops: []x86ref.WantOp{wmem(m, w), wimm(iv, w)}},
-				feat("form", "m,imm", "mn", mn, "w", fmt.Sprint(w), "shape", m.text, "imm", fmt.Sprint(iv), "s8", fmt.Sprint(iv >= -128 && iv <= 127)))
+			if prelude != "" { // the definition stands in the baseline program too
+				cs.Srcs = []string{strings.Replace(cs.Srcs[0], "\t", prelude+"\t", 1), cs.Srcs[1] + prelude}
+				cs.Key += " (K8 EQU " + expr + ")"
+			}
+			return cs
 		}})
 	abss := []int64{0, 1, 0x7f, 0x80, 0xff, 0x100, 0x7c00, 0xfffe, 0xffff, 0x10000, 0x12345678}
 	scs = append(scs, &core.Scenario{Name: "mov_moffs", Bound: -1,
